@@ -53,7 +53,7 @@ def dPart (G : List Note) (v : Int) : List Payload :=
       (G.countP isClap) (G.countP isFinish) (G.countP isWhistle)).map (fun x => Payload.dflt x v)
 
 def fPart (G : List Note) (v : Int) : List Payload :=
-  ((splitSep sep (joinSep sep (G.map (·.file)))).filter (fun f => f.length > 0)).map (fun f => Payload.file f v)
+  ((G.map (·.file)).filter (fun f => f.length > 0)).map (fun f => Payload.file f v)
 
 theorem queueG_parts (G : List Note) (v : Int) : queueG G v = dPart G v ++ fPart G v := rfl
 
@@ -222,7 +222,7 @@ theorem queueG_peFile (G : List Note) (v : Int) (hG : NoSepL G) (hv : ∀ n ∈ 
       | file g vol =>
         have hvol : vol = v := this
         simp [peFile, pFile, hvol]
-    rw [e1, queueG_file G v hG f hf]
+    rw [e1, queueG_file G v f hf]
     apply List.countP_congr
     intro n hn
     simp [hv n hn]
